@@ -130,7 +130,7 @@ func genC10(t *rapid.T) Hist {
 	for i := 0; i < ns; i++ {
 		hst.Subs = append(hst.Subs, Sub{Acct: [3]Acct{{1, 100000}, {2, 100000}, {3, 100000}}, Suffix: suffixes[i]})
 	}
-	names := []string{"", "1", "11", "12", "s", "s1", "s11", "2", "-", "s-1", "1-", strings.Repeat("n", 230), strings.Repeat("n", 250), strings.Repeat("n", 1000)}
+	names := []string{"", "1", "11", "12", "s", "s1", "s11", "2", "-", "s-1", "1-", "smf%41", "100%25", "a b", strings.Repeat("n", 230), strings.Repeat("n", 250), strings.Repeat("n", 1000)}
 	n := rapid.IntRange(3, h.Scale(14, 24)).Draw(t, "nOps")
 	liveCount := make([]int, ns)
 	for i := 0; i < n; i++ {
